@@ -73,6 +73,24 @@ def _job(args: tuple[int, list[str], int, int, int, float | None, int, str | Non
     return stats, list(violations.values())
 
 
+def _root_job(args: tuple[int, float]) -> tuple[int, Any, list[Violation]]:
+    """The default (0-deviation) execution of one scenario, in a worker."""
+    sidx, deadline = args
+    if time.time() > deadline:
+        return sidx, None, []
+    sc = _SCENARIOS[sidx]
+    env = execute(sc)
+    viols = []
+    for v in getattr(env, 'violations', []):
+        v.labels = list(env.labels)
+        v.trace = [(round(t, 6), k, _jsonable(p)) for t, k, p in env.obs][-120:]
+        viols.append(v)
+    root = _Root(env.labels, env.points, env.fps, env.end_reason, env.deviations, od=env.outcome_digest(),
+                 sample={'scenario': sc.name, 'params': _jsonable(sc.params), 'deviations': [],
+                         'choice_points': len(env.points), 'end': env.end_reason, 'labels_head': env.labels[:12]})
+    return sidx, root, viols
+
+
 def canary(sc: Scenario) -> None:
     """Proof obligation 1: the default execution is reproducible (run twice, sleep in between)."""
     a = execute(sc)
@@ -101,28 +119,22 @@ def explore_parallel(scenarios: list[Scenario], bound: int, *, time_cap: float, 
     # level 0 in the master: it also provides the first-level jobs.
     roots = []
     root_capped = False
-    for sidx, sc in enumerate(scenarios):
-        if time.time() > t_end + 30:
-            root_capped = True   # even the default schedules did not fit into the budget: report it
-            break
-        env = execute(sc)
-        from kv import explorer
-        d0 = env.outcome_digest()
-        explorer._account(total, env, 0, d0)
-        for v in getattr(env, 'violations', []):
-            v.labels = list(env.labels)
-            v.trace = [(round(t, 6), k, _jsonable(p)) for t, k, p in env.obs][-120:]
-            all_viol.setdefault(v.key(), v)
-        roots.append((sidx, _Root(env.labels, env.points, env.fps, env.end_reason, env.deviations, od=d0,
-                                  sample={'scenario': sc.name, 'params': _jsonable(sc.params), 'deviations': [],
-                                          'choice_points': len(env.points), 'end': env.end_reason,
-                                          'labels_head': env.labels[:12]}), d0))
-        del env
-    completed = 0 if not root_capped else -1
-    total.capped = root_capped
     import gc
     gc.collect()
     gc.freeze()  # forked workers must not touch (and copy) the inherited heap
+    deadline0 = t_end + 30
+    with multiprocessing.get_context('fork').Pool(min(CORES, max(1, len(scenarios)))) as pool:
+        jobs0 = [(sidx, deadline0) for sidx in range(len(scenarios))]
+        for sidx, root, viols0 in pool.imap(_root_job, jobs0, chunksize=max(1, len(jobs0) // (CORES * 8))):
+            if root is None:
+                root_capped = True   # even the default schedules did not fit into the budget: report it
+                continue
+            roots.append((sidx, root, root.od))
+            for v in viols0:
+                all_viol.setdefault(v.key(), v)
+    total.merge(_copy_level0(roots))
+    completed = 0 if not root_capped else -1
+    total.capped = root_capped
     final = total
     for b in range(max(1, min_bound), bound + 1):
         if time.time() > t_end or root_capped:
